@@ -32,7 +32,7 @@ def cross(a, b, c):
     return (b[0] - a[0]) * (c[1] - a[1]) - (b[1] - a[1]) * (c[0] - a[0])
 
 
-def make_fn(poly, twin=False, fixed_tol=None, closed=False):
+def make_fn(poly, twin=False, fixed_tol=None, closed=False, prior=None):
     xs = [p[0] for p in poly]
     ys = [p[1] for p in poly]
 
@@ -71,6 +71,15 @@ def make_fn(poly, twin=False, fixed_tol=None, closed=False):
             ring = ring + [ring[0]]
             d0 = sym_sqrt((VF[0][0] - p[0]) ** 2 + (VF[0][1] - p[1]) ** 2)
             e.add(z3.And((2 * d0).t >= detours[0].t, (2 * d0).t >= detours[1 % n].t))
+        if prior is not None:
+            # history: the same list object held another polygon (same number of vertices) when it was checked before, and was then
+            # refilled in place - the answer may depend on the polygon's value and the point only
+            work = [(float(x), float(y)) for x, y in prior]
+            if closed:
+                work = work + [work[0]]
+            SH.point_polygon_check(work, (sum(v[0] for v in work) / len(work), sum(v[1] for v in work) / len(work)), on_edge_tolerance=0.001)
+            work[:] = ring
+            ring = work
         r = SH.point_polygon_check(ring, p, on_edge_tolerance=tol)
         if twin:
             return False
@@ -111,14 +120,22 @@ def exact_oracle(poly, px, py, tol):
     return (1 if cnt % 2 else -1), margin
 
 
-def make_replay(poly, fixed_tol=None, closed=False):
+def make_replay(poly, fixed_tol=None, closed=False, prior=None):
     def replay(model, notes):
         restore_shadows()
         from ghedesigner.shape import point_polygon_check
         px, py = float(model['px']), float(model['py'])
         tol = float(model['tol']) if fixed_tol is None else fixed_tol
         ring = [tuple(map(float, v)) for v in poly]
-        got = point_polygon_check(ring + [ring[0]] if closed else ring, (px, py), on_edge_tolerance=tol)
+        ring = ring + [ring[0]] if closed else ring
+        if prior is not None:
+            work = [(float(x), float(y)) for x, y in prior]
+            if closed:
+                work = work + [work[0]]
+            point_polygon_check(work, (sum(v[0] for v in work) / len(work), sum(v[1] for v in work) / len(work)), on_edge_tolerance=0.001)
+            work[:] = ring
+            ring = work
+        got = point_polygon_check(ring, (px, py), on_edge_tolerance=tol)
         exp, margin = exact_oracle(poly, px, py, tol)
         if margin < 1e-11:
             return False, dict(note='within 1e-11 of the tolerance band (outside the claim)', got=got, expected=exp)
@@ -205,6 +222,12 @@ def units(tier, seed):
             us.append(Unit('closed_ring_%s_from%d' % (nm, start), make_fn(pr, closed=True), make_replay(pr, closed=True), setup, F,
                            'polygon %s given as a closed ring starting at vertex %d (first vertex repeated at the end); test point and tolerance as above' % (nm, start),
                            AS, ST + ['zero-length closing edge: 2|p - v0| >= detour of the edges at v0 (triangle inequality)'], max_seconds=600))
+    for nm, poly in (HAND.items() if tier == 'thorough' else list(HAND.items())[:3]):
+        for closed in ((False, True) if tier == 'thorough' else (False,)):
+            prior = [(2 * x + 1, 2 * y) for x, y in poly]        # another polygon with the same number of vertices (stretched and shifted)
+            us.append(Unit('reused_list_%s%s' % (nm, '_closed' if closed else ''), make_fn(poly, closed=closed, prior=prior), make_replay(poly, closed=closed, prior=prior), setup, F,
+                           'polygon %s checked in a list object that held a stretched copy of it (same vertex count) during an earlier check and was refilled in place; test point and tolerance as above' % nm,
+                           AS, ST, max_seconds=600))
     tri = lattice_polygons(3)
     quad = lattice_polygons(4)
     if tier == 'quick':
